@@ -581,8 +581,10 @@ impl RobotBody {
         skip: &HashSet<usize>,
         safety: &SafetyDistances,
     ) -> bool {
-        !skip.contains(&i) && !skip.contains(&j) &&
-            safety.min_distance(i as u16, j as u16) > &NEVER_COLLIDES
+        // A pair needs no check only if neither of its members moved. The base and the
+        // environment objects never move.
+        let unmoved = |k: usize| skip.contains(&k) || k == J_BASE || k >= ENV_START_IDX;
+        !(unmoved(i) && unmoved(j)) && safety.min_distance(i as u16, j as u16) > &NEVER_COLLIDES
     }    
 }
 
